@@ -156,3 +156,42 @@ Example C01_any_names_example :
   JObj [("type", JStr "R"); ("path", JObj [("$in", JArr [JStr "R"; JStr "R"])]); ("index", JObj [("subType", JStr "R"); ("limit", JStr "R")]);
         ("$or", JArr [JObj [("from", JStr "R")]; JObj [("as", JObj [("$ne", JStr "R")])]])].
 Proof. vm_compute. split; reflexivity. Qed.
+
+(* ---------- all three walkers: what survives is decided by the tables alone ---------- *)
+From Proofs Require Import WalkSurvivors.
+
+(* For EVERY query-bearing value of a command document, aggregation pipelines included, and any tables: [cmd_wcl] replays
+   along the index path exactly the lookups the walkers make (getOp on the key path, the argument map of a map-typed
+   operator, the core table in the query walker). Where none of them answers field-path / namespace / exempt (and no
+   list-valued argument holds a non-list) the leaf found in the output is the strong verdict. No condition on NAMES: the
+   name-based reading of C01_absent is the special case in which the lookups are bounded by "is named like a table entry". *)
+Theorem C01_survivors_are_decided_by_the_tables : forall tb cs c A ins k v p leaf,
+  re c = None -> zone_value ins k v = true -> nodup_keys v ->
+  jget v p = Some leaf -> is_leaf leaf -> cmd_wcl tb c k v p = true ->
+  exists d, strong cs c leaf d /\ jget (cmd_member tb cs c A false ins k v) p = Some (apply_verdict A d leaf).
+Proof. intros tb cs c A ins k v p leaf H. exact (cmd_member_wcl tb cs c A H ins k v p leaf). Qed.
+Print Assumptions C01_survivors_are_decided_by_the_tables.
+
+(* the same for a walker in any mode (field-name switch off), Atlas Search stages included *)
+Theorem C01_walkers_survivors : forall tb cs c A p t m leaf,
+  re c = None -> wmode m -> nodup_keys t -> jget t p = Some leaf -> is_leaf leaf -> wcl tb c m t p = true -> p <> [] ->
+  exists d, strong cs c leaf d /\ jget (walk tb cs c is_email A m t) p = Some (apply_verdict A d leaf).
+Proof. intros tb cs c A p t m leaf H. exact (walk_wcl tb cs c is_email A H (List.length p) p t m leaf (le_n _)). Qed.
+Print Assumptions C01_walkers_survivors.
+
+(* non-vacuity: a pipeline whose user fields are named like operator arguments (index, path, type, limit, from, as) - name-based
+   clear paths would exclude them; the lookups do not, and every literal is replaced, also inside $facet and a search stage *)
+Definition ex_pipe_names : json :=
+  JArr [JObj [("$match", JObj [("index", JStr "S1"); ("path", JObj [("$in", JArr [JStr "S2"])]); ("type", JObj [("limit", JStr "S3")])])];
+        JObj [("$facet", JObj [("f", JArr [JObj [("$match", JObj [("from", JStr "S4")])]])])];
+        JObj [("$search", JObj [("index", JStr "idx"); ("text", JObj [("query", JStr "S5"); ("path", JStr "title")])])]].
+Example C01_tables_decide_example :
+  let c := {| repl := "R"; nums := false; bools := false; ips := false; nss := false; eager := nil; re := None |} in
+  forallb (cmd_wcl current c "pipeline" ex_pipe_names) [[0; 0; 0]; [0; 0; 1; 0; 0]; [0; 0; 2; 0]; [1; 0; 0; 0; 0; 0]; [2; 0; 1; 0]] = true /\
+  cmd_wcl current c "pipeline" ex_pipe_names [2; 0; 0] = false /\ cmd_wcl current c "pipeline" ex_pipe_names [2; 0; 1; 1] = false /\
+  clear current ex_pipe_names [0; 0; 0] = false /\
+  cmd_member current current_consts c (real_actions current_consts c None) false false "pipeline" ex_pipe_names =
+  JArr [JObj [("$match", JObj [("index", JStr "R"); ("path", JObj [("$in", JArr [JStr "R"])]); ("type", JObj [("limit", JStr "R")])])];
+        JObj [("$facet", JObj [("f", JArr [JObj [("$match", JObj [("from", JStr "R")])]])])];
+        JObj [("$search", JObj [("index", JStr "idx"); ("text", JObj [("query", JStr "R"); ("path", JStr "title")])])]].
+Proof. vm_compute. repeat split; reflexivity. Qed.
